@@ -71,6 +71,7 @@ theorem stepAtom_wss (cfg : Cfg) (s : State) (a : Atom) (h : a.wssFree = true) :
     simp only [stepAtom]
     cases l with
     | wss b0 b1 => simp [Atom.wssFree, Line.isWss] at h
+    | cpr c0 => exact Or.inl ⟨(rxCpr_rest s c0).2.2.1, (rxCpr_rest s c0).2.2.2.1, (rxCpr_rest s c0).2.2.2.2⟩
     | page pgno =>
       simp only [rxLine]
       split <;> exact Or.inl ⟨rfl, rfl, rfl⟩
